@@ -162,9 +162,26 @@ pub fn signature(code: &[u8], knobs: &Knobs, a: &Sched, b: &Sched) -> (String, V
             json!({"only_a": only_a, "only_b": only_b, "layout_a": layout_kinds(&oa), "layout_b": layout_kinds(&ob)}),
         );
     }
+    // Same evidence, same fold results: the divergence is in what is built
+    // from them. Name the first entry that differs.
+    let first_diff = match (&oa.layout, &ob.layout) {
+        (Some(la), Some(lb)) => {
+            let (sa, sb) = (la.slots(), lb.slots());
+            let n = sa.len().max(sb.len());
+            (0..n).find(|i| sa.get(*i) != sb.get(*i)).map(|i| {
+                let show = |s: Option<&storage_layout_extractor::layout::StorageSlot>| match s {
+                    Some(s) => format!("{:x}+{}:{}", s.index.0, s.offset, serde_json::to_string(&s.typ).unwrap_or_default().chars().take(90).collect::<String>()),
+                    None => "absent".to_string(),
+                };
+                format!("entry {i}: {} | {}", show(sa.get(i)), show(sb.get(i)))
+            })
+        }
+        _ => None,
+    }
+    .unwrap_or_else(|| format!("{}|{}", layout_kinds(&oa), layout_kinds(&ob)));
     (
-        format!("post:same-folds-different-layout:{}|{}", layout_kinds(&oa), layout_kinds(&ob)),
-        json!({"layout_a": layout_kinds(&oa), "layout_b": layout_kinds(&ob)}),
+        format!("post:same-folds-different-layout:{first_diff}"),
+        json!({"layout_a": layout_kinds(&oa), "layout_b": layout_kinds(&ob), "first_difference": first_diff}),
     )
 }
 
